@@ -25,6 +25,7 @@ type Profile struct {
 	Exhaust     bool    // delete until the block cache is empty
 	ValidatorCh bool    // include a validator change
 	RestartBias float64 // probability per script step of an additional restart followed directly by guard probes
+	StartBias   float64 // probability per script step of a start with wrong / changed inputs (`restartg`); > 0 also adds one at the end
 }
 
 // Recorder drives a real node and writes the operation lines.
@@ -642,6 +643,105 @@ func (r *Recorder) restartOnly() {
 	r.Ops = append(r.Ops, "restart")
 }
 
+// StartProbe starts the node again on its database with WRONG or CHANGED inputs (op `restartg`, see
+// Runner.startInputs): a foreign genesis block (same height and another id; a height inside the stored
+// chain, at its tip, above it, below the stored genesis height), another block cache size / event
+// retention, another chain id. genesisOnly: only the foreign-genesis family.
+func (r *Recorder) StartProbe(genesisOnly bool) {
+	n := r.N
+	if n == nil || n.Tip() == nil || r.Err != nil {
+		return
+	}
+	rng := r.Rng
+	k := rng.Intn(10)
+	if genesisOnly {
+		k = rng.Intn(7)
+	}
+	switch {
+	case k < 7:
+		gh0, tip := n.Cfg.GenesisHeight, n.Height()
+		kinds := []string{"id", "id", "tip", "above"}
+		if tip > gh0+1 {
+			kinds = append(kinds, "inside", "inside")
+		}
+		if gh0 > 0 {
+			kinds = append(kinds, "below", "below")
+		}
+		kind := kinds[rng.Intn(len(kinds))]
+		h := gh0
+		switch kind {
+		case "inside":
+			h = gh0 + 1 + uint32(rng.Intn(int(tip-gh0-1)))
+			if fin := n.Finalized(); fin > gh0 && fin < tip && rng.Intn(2) == 0 {
+				h = fin // the block at the finalized height itself
+			}
+		case "tip":
+			h = tip
+		case "above":
+			h = tip + 1 + uint32(rng.Intn(4))
+		case "below":
+			h = gh0 - 1 - uint32(rng.Intn(int(min32(gh0, 3))))
+		}
+		ts := n.Cfg.GenesisTimestamp + n.Cfg.BlockTime*uint32(1+rng.Intn(3))
+		if kind != "id" && rng.Intn(3) == 0 {
+			ts = n.Cfg.GenesisTimestamp
+		}
+		abi := "fresh"
+		if rng.Intn(3) == 0 {
+			abi = "keep"
+		}
+		g, err := n.ForeignGenesis(h, ts)
+		if err != nil || bytes.Equal(g.Header.ID, n.Genesis.Header.ID) {
+			return
+		}
+		r.tag("restartg:" + kind)
+		r.Ops = append(r.Ops, fmt.Sprintf("restartg v=genesis kind=%s abi=%s gh=%d gts=%d gid=%s", kind, abi, h, ts, hx(g.Header.ID)))
+		gen, cfg, mock := n.Genesis, n.Cfg, n.ABI
+		_ = n.RestartWith(node.StartInputs{Genesis: g, FreshABI: abi == "fresh"})
+		n.DrainEvents()
+		n.Genesis, n.Cfg, n.ABI = gen, cfg, mock
+		r.Restart()
+	case k < 9:
+		cache := []int{2, 3, 4, 5, 8, 515, n.Cfg.MaxBlockCache + 1}[rng.Intn(7)]
+		if r.Prof.SmallCache && cache > 8 {
+			cache = 2 + rng.Intn(4)
+		}
+		keep := []int{-1, 0, 0, 1, 2, 5}[rng.Intn(6)]
+		r.tag("restartg:cfg")
+		r.Ops = append(r.Ops, fmt.Sprintf("restartg v=cfg cache=%d keep=%d", cache, keep))
+		if err := n.RestartWith(node.StartInputs{MaxBlockCache: cache, KeepEventsForHeights: &keep}); err != nil {
+			r.Err = err
+		}
+		n.DrainEvents()
+		if r.Err == nil && rng.Intn(2) == 0 {
+			r.Guards(false)
+		}
+	default:
+		cid := []byte{byte(rng.Intn(256)), 0, 0, byte(1 + rng.Intn(255))}
+		if bytes.Equal(cid, n.Cfg.ChainID) {
+			cid[3] ^= 0x55
+		}
+		r.tag("restartg:chainid")
+		r.Ops = append(r.Ops, fmt.Sprintf("restartg v=chainid cid=%s", hx(cid)))
+		orig := n.Cfg.ChainID
+		if err := n.RestartWith(node.StartInputs{ChainID: cid}); err != nil {
+			r.Err = err
+		}
+		n.DrainEvents()
+		n.Cfg.ChainID = orig
+		if r.Err == nil {
+			r.Restart()
+		}
+	}
+}
+
+func min32(a, b uint32) uint32 {
+	if a < b {
+		return a
+	}
+	return b
+}
+
 // SyncCtx asks the executer for the context it would hand to the synchronisers.
 func (r *Recorder) SyncCtx() {
 	if r.N.Tip() == nil {
@@ -786,6 +886,12 @@ func (r *Recorder) Script() {
 				continue
 			}
 		}
+		if p.StartBias > 0 && rng.Float64() < p.StartBias {
+			r.StartProbe(false)
+			if n.Tip() == nil {
+				continue
+			}
+		}
 		x := rng.Float64() * (3 + p.DeleteBias + p.ForkBias)
 		switch {
 		case x < 1.6:
@@ -831,6 +937,10 @@ func (r *Recorder) Script() {
 			r.Exhaust()
 		}
 	}
+	if p.StartBias > 0 && r.Err == nil && n.Tip() != nil {
+		// every history ends with a start on the wrong genesis block (finality has advanced by now)
+		r.StartProbe(true)
+	}
 	if n.Tip() != nil {
 		r.Ops = append(r.Ops, "twin")
 	}
@@ -852,7 +962,8 @@ func Record(rng *rand.Rand, prof Profile) (ops []string, tag string, err error) 
 		r.Script()
 	}()
 	var tags []string
-	for _, t := range []string{"proc:tieBreakApplied", "proc:tieBreakReverted", "proc:doubleForging", "cache-exhausted", "validator-change", "dup-tx", "till:below-fin", "restore-temps", "reorg", "reapply", "restart-guards"} {
+	for _, t := range []string{"proc:tieBreakApplied", "proc:tieBreakReverted", "proc:doubleForging", "cache-exhausted", "validator-change", "dup-tx", "till:below-fin", "restore-temps", "reorg", "reapply", "restart-guards",
+		"restartg:id", "restartg:inside", "restartg:tip", "restartg:above", "restartg:below", "restartg:cfg", "restartg:chainid"} {
 		if r.Tags[t] > 0 {
 			tags = append(tags, strings.TrimPrefix(t, "proc:"))
 		}
